@@ -112,6 +112,19 @@ def source_fingerprint(prop):
     return {f: _ast_hash(os.path.join(root, f)) for f in anchored_files(prop)}
 
 
+def all_source_fingerprint():
+    """Every .py file of the package (relative to the repository root), same hash as for the anchored files."""
+    root = os.path.dirname(_repo_src())
+    out = {}
+    for dp, dn, fn in os.walk(os.path.join(_repo_src(), "vivarium")):
+        dn[:] = [d for d in dn if d != "__pycache__"]
+        for f in fn:
+            if f.endswith(".py") and f != "_version.py":
+                full = os.path.join(dp, f)
+                out[os.path.relpath(full, root)] = _ast_hash(full)
+    return out
+
+
 def recorded_fingerprint(prop):
     p = os.path.join(VERIF, "harness", "fingerprints.json")
     if not os.path.exists(p):
@@ -120,6 +133,7 @@ def recorded_fingerprint(prop):
 
 
 ESCALATE = 6   # factor on the quick tier's generated cases when the anchored source differs from the reviewed one
+ESCALATE_ELSEWHERE = 3   # ... when only files outside the property's anchors differ (collaborators, callers, utilities)
 
 
 # --------------------------------------------------------------------------------------------------------------
@@ -179,10 +193,20 @@ class CheckRun:
         os.makedirs(GEN, exist_ok=True)
         fp, rec = source_fingerprint(prop), recorded_fingerprint(prop)
         self.changed_files = sorted(f for f in fp if rec is None or rec.get(f) != fp[f])
-        self.escalate = bool(self.changed_files) and rec is not None
+        self.escalate = ESCALATE if (self.changed_files and rec is not None) else 0
+        allrec = recorded_fingerprint("_all")
+        self.changed_elsewhere = []
+        if allrec is not None:
+            allfp = all_source_fingerprint()
+            self.changed_elsewhere = sorted(f for f in set(allfp) | set(allrec) if allfp.get(f) != allrec.get(f) and f not in fp)
+        if os.environ.get("VERIF_ESCALATE"):
+            self.escalate = int(os.environ["VERIF_ESCALATE"])
+        elif not self.escalate and self.changed_elsewhere:
+            self.escalate = ESCALATE_ELSEWHERE
         if self.escalate:
-            self.notes.append("anchored source differs from the fingerprint recorded when the model was reviewed "
-                              f"({', '.join(self.changed_files)}): generated cases x{ESCALATE} (capped at the thorough count)")
+            self.notes.append("package source differs from the fingerprint recorded when the models were reviewed "
+                              f"(anchored: {', '.join(self.changed_files) or '-'}; elsewhere: {', '.join(self.changed_elsewhere) or '-'}): "
+                              f"generated cases x{self.escalate} (capped at the thorough count)")
 
     # ---- Coq -------------------------------------------------------------------------------------------
     def coqc(self, path: str, timeout=600):
@@ -272,7 +296,7 @@ class CheckRun:
             self.exhaustive = False
             n = s.n_quick if self.tier == "quick" else s.n_thorough
             if self.tier == "quick" and self.escalate:
-                n = max(n, min(s.n_quick * ESCALATE, s.n_thorough))
+                n = max(n, min(s.n_quick * self.escalate, s.n_thorough))
             rng = random.Random(self.rng.getrandbits(64))
             for _ in range(n):
                 cases.append(("gen", s.gen(rng)))
@@ -387,6 +411,7 @@ class CheckRun:
                 "obligation_log": [{"name": n, "ok": ok, **({"detail": d[-600:]} if d else {})} for n, ok, d in self.obligation_log],
                 "known_findings_reproduced": sorted(seen_known),
                 "anchored_source_changed_since_review": self.changed_files,
+                "other_source_changed_since_review": self.changed_elsewhere,
                 "notes": self.notes,
             },
             "assumptions": list(getattr(module, "ASSUMPTIONS", [])),
